@@ -293,3 +293,219 @@ def run_c15(tier, seed):
            "samples": [{"case": autos[0], "type": type_expr(autos[0])}, {"case": comp[0], "program": compile_case_src(comp[0])[-200:]}],
            "exhaustive": True, "auto_queries": len(autos), "compile_probes": len(comp), "wall_probe_s": round(time.time() - t0, 1)}
     return (found, cov), None
+
+
+# ----------------------------------------------------------------------------------------------------------------
+def feature_case_src(c, f):
+    b = c["backend"]
+    use = "use any_vec::mem::%s;\n" % b
+    body = "pub fn f() { let _v: any_vec::AnyVec<dyn any_vec::traits::None, %s> = any_vec::AnyVec::new_in::<u64>(%s); }" % (BACKEND_TY[b], builder_expr(b))
+    return "#![no_std]\n#![allow(unused_imports, dead_code)]\n" + use + body + "\n"
+
+def run_c19_extra(tier, seed):
+    """feature-set cases of AnyVecTraits (which backends exist with / without `alloc`) and the freestanding link probe"""
+    cases, stats = c15_cases()
+    feats = [c for c in cases if c["kind"] == "feature"]
+    found = []
+    n = 0
+    for alloc, fname in ((True, "default"), (False, "noalloc")):
+        rlib, deps = build_rlib(alloc)
+        if rlib is None:
+            return None, deps
+        for c in [c for c in feats if c["trait"] == fname]:
+            src = os.path.join(PW, "feat_%s_%s.rs" % (fname, c["backend"]))
+            os.makedirs(PW, exist_ok=True)
+            open(src, "w").write(feature_case_src(c, fname))
+            ok, codes, msg = rustc(src, src + ".rmeta", rlib, deps)
+            n += 1
+            sig = {"pred": "backend_available", "op": "feature", "backend": c["backend"], "features": fname, "config": c["backend"], "profile": "n/a"}
+            if ok != c["expect"]:
+                found.append((sig, c, "backend %s with feature set %s: compiles=%s expected=%s %s" % (c["backend"], fname, ok, c["expect"], msg[:200]),
+                              feature_case_src(c, fname), ok))
+            elif not ok and not (set(codes) & REJECT_CODES):
+                raise ToolError("feature probe rejected for an unexpected reason %s: %s" % (codes, msg))
+    # freestanding program without a global allocator
+    nd = os.path.join(PROBES, "nostd")
+    env = dict(os.environ, CARGO_NET_OFFLINE="true")
+    r = subprocess.run(["cargo", "build", "--release", "--offline"], cwd=nd, stdout=subprocess.PIPE, stderr=subprocess.STDOUT, text=True, env=env)
+    case = {"kind": "link", "ty": "nostd_probe", "expect": True}
+    sig = {"pred": "links_without_alloc", "op": "link", "config": "Stack", "profile": "release"}
+    n += 1
+    if r.returncode != 0:
+        found.append((sig, case, "a #![no_std] program without a global allocator does not build against default-features = false: " + r.stdout[-400:],
+                      open(os.path.join(nd, "src/main.rs")).read(), False))
+    else:
+        rr = subprocess.run([os.path.join(nd, "target/release/nostd_probe")])
+        n += 1
+        if rr.returncode != 0:
+            sig2 = dict(sig, pred="stack_complete_operation_set")
+            found.append((sig2, dict(case, kind="run"), "the freestanding stack-vector program aborted (rc=%s): an operation misbehaved without alloc" % rr.returncode,
+                          open(os.path.join(nd, "src/main.rs")).read(), False))
+        # negative control of the detector: with the alloc feature forced on, linking must fail for lack of an allocator
+        rc = subprocess.run(["cargo", "build", "--release", "--offline", "--features", "force_alloc", "--target-dir", "target-ctl"], cwd=nd,
+                            stdout=subprocess.PIPE, stderr=subprocess.STDOUT, text=True, env=env)
+        shutil.rmtree(os.path.join(nd, "target-ctl"), ignore_errors=True)
+        if rc.returncode == 0 or "no global memory allocator" not in rc.stdout:
+            raise ToolError("negative control failed: the link probe does not detect the alloc crate in the graph: " + rc.stdout[-500:])
+    cov = {"feature_cases": len(feats), "link_probe": 1, "probes": n, "tlc_cases": stats["distinct"]}
+    return (found, cov), None
+
+
+# ----------------------------------------------------------------------------------------------------------------
+# C16: borrow conflicts
+B_PRELUDE = '''#![allow(unused, dropping_references, dropping_copy_types, forgetting_references)]
+use any_vec::AnyVec;
+use any_vec::any_value::*;
+use any_vec::traits::Cloneable;
+fn mk() -> AnyVec<dyn Cloneable> {
+    let mut v: AnyVec<dyn Cloneable> = AnyVec::new::<u64>();
+    v.push(AnyValueWrapper::new(1u64)); v.push(AnyValueWrapper::new(2u64)); v.push(AnyValueWrapper::new(3u64));
+    v
+}
+'''
+# method -> (creation expression, binding is mut, use statement)
+B_METHODS = {
+    "get": ("v.get(0).unwrap()", False, "let _ = h.downcast_ref::<u64>();"),
+    "at": ("v.at(0)", False, "let _ = h.downcast_ref::<u64>();"),
+    "get_mut": ("v.get_mut(0).unwrap()", True, "let _ = h.downcast_mut::<u64>();"),
+    "at_mut": ("v.at_mut(0)", True, "let _ = h.downcast_mut::<u64>();"),
+    "iter": ("v.iter()", True, "let _ = h.next();"),
+    "iter_mut": ("v.iter_mut()", True, "let _ = h.next();"),
+    "pop": ("v.pop().unwrap()", False, "let _ = h.downcast_ref::<u64>();"),
+    "remove": ("v.remove(0)", False, "let _ = h.downcast_ref::<u64>();"),
+    "swap_remove": ("v.swap_remove(0)", False, "let _ = h.downcast_ref::<u64>();"),
+    "drain": ("v.drain(..)", True, "let _ = h.next();"),
+    "splice": ("v.splice(.., [AnyValueWrapper::new(9u64)])", True, "let _ = h.next();"),
+    "as_bytes": ("v.as_bytes()", False, "let _ = h.len();"),
+    "as_bytes_mut": ("v.as_bytes_mut()", False, "h[0] = 1;"),
+    "spare_bytes_mut": ("v.spare_bytes_mut()", False, "let _ = h.len();"),
+    "downcast_ref": ("v.downcast_ref::<u64>().unwrap()", False, "let _ = h.len();"),
+    "downcast_mut": ("v.downcast_mut::<u64>().unwrap()", True, "h.push(3);"),
+    "lazy_clone": (None, False, "let _ = h.size();"),
+    "t_as_slice": ("v.downcast_ref::<u64>().unwrap().as_slice()", False, "let _ = h.len();"),
+    "t_iter": ("v.downcast_ref::<u64>().unwrap().iter()", True, "let _ = h.next();"),
+    "t_at": ("v.downcast_ref::<u64>().unwrap().at(0)", False, "let _ = *h;"),
+    "t_as_mut_slice": ("v.downcast_mut::<u64>().unwrap().as_mut_slice()", False, "h[0] = 1;"),
+    "t_iter_mut": ("v.downcast_mut::<u64>().unwrap().iter_mut()", True, "let _ = h.next();"),
+    "t_at_mut": ("v.downcast_mut::<u64>().unwrap().at_mut(0)", False, "*h = 1;"),
+    "t_drain": ("v.downcast_mut::<u64>().unwrap().drain(..)", True, "let _ = h.next();"),
+    "t_splice": ("v.downcast_mut::<u64>().unwrap().splice(.., [9u64])", True, "let _ = h.next();"),
+    "t_spare_capacity_mut": ("v.downcast_mut::<u64>().unwrap().spare_capacity_mut()", False, "let _ = h.len();"),
+}
+B_STMTS = {"mutate_src": "v.clear();", "read_src": "let _n = v.len();", "second_excl": "let _h2 = v.get_mut(0);",
+           "second_shared": "let _h2 = v.get(0);", "move_src": "let _w = v;", "drop_src": "drop(v);"}
+
+def borrow_programs(c):
+    """(program under test, conflict-free control)"""
+    k = c["kind"]
+    if k == "vec_loan":
+        m, s = c["method"], c["stmt"]
+        expr, mut, use = B_METHODS[m]
+        if m == "lazy_clone":
+            create = "let e = v.at(0); let h = e.lazy_clone();"
+        else:
+            create = "let %sh = %s;" % ("mut " if mut else "", expr)
+        if s == "escape_scope":
+            if m == "lazy_clone":
+                prog = "pub fn f() { let h; let e; { let mut v = mk(); e = v.at(0); h = e.lazy_clone(); } %s }" % use
+            else:
+                prog = "pub fn f() { let %sh; { let mut v = mk(); h = %s; } %s }" % ("mut " if mut else "", expr, use)
+            ctl = "pub fn f() { let mut v = mk(); %s %s }" % (create, use)
+        elif s == "consume_twice":
+            prog = "pub fn f() { let mut v = mk(); %s let _a = h.downcast::<u64>(); let _b = h.downcast::<u64>(); }" % create
+            ctl = "pub fn f() { let mut v = mk(); %s let _a = h.downcast::<u64>(); }" % create
+        else:
+            prog = "pub fn f() { let mut v = mk(); %s %s %s }" % (create, B_STMTS[s], use)
+            ctl = "pub fn f() { let mut v = mk(); %s %s }" % (create, use)
+        return B_PRELUDE + prog + "\n", B_PRELUDE + ctl + "\n"
+    if k == "view_reuse":
+        vm, mu = c["method"], c["stmt"]
+        r = {"at": ("let r = t.at(0);", "let _ = *r;"), "get": ("let r = t.get(0).unwrap();", "let _ = *r;"),
+             "at_mut": ("let r = t.at_mut(0);", "*r = 1;"), "get_mut": ("let r = t.get_mut(0).unwrap();", "*r = 1;"),
+             "as_slice": ("let r = t.as_slice();", "let _ = r.len();"), "as_mut_slice": ("let r = t.as_mut_slice();", "r[0] = 1;"),
+             "iter": ("let mut r = t.iter();", "let _ = r.next();"), "iter_mut": ("let mut r = t.iter_mut();", "let _ = r.next();"),
+             "spare_capacity_mut": ("let r = t.spare_capacity_mut();", "let _ = r.len();"),
+             "drain": ("let mut r = t.drain(..);", "let _ = r.next();"), "splice": ("let mut r = t.splice(.., [9u64]);", "let _ = r.next();")}[vm]
+        mut = {"push": "t.push(5);", "clear": "t.clear();", "remove": "let _x = t.remove(0);"}[mu]
+        head = "pub fn f() { let mut v = mk(); let mut t = v.downcast_mut::<u64>().unwrap(); "
+        return B_PRELUDE + head + "%s %s %s }\n" % (r[0], mut, r[1]), B_PRELUDE + head + "%s %s }\n" % (r[0], r[1])
+    if k == "two_paths":
+        p = c["method"]
+        head = "pub fn f() { let mut v = mk(); "
+        T = {
+            "as_mut_slice_twice": ("let mut t = v.downcast_mut::<u64>().unwrap(); let a = t.as_mut_slice(); let b = t.as_mut_slice(); a[0] = 1; b[0] = 2; }",
+                                   "let mut t = v.downcast_mut::<u64>().unwrap(); let a = t.as_mut_slice(); a[0] = 1; let b = t.as_mut_slice(); b[0] = 2; }"),
+            "get_mut_twice_via_view": ("let mut t = v.downcast_mut::<u64>().unwrap(); let a = t.get_mut(0).unwrap(); let b = t.get_mut(0).unwrap(); *a = 1; *b = 2; }",
+                                       "let mut t = v.downcast_mut::<u64>().unwrap(); let a = t.get_mut(0).unwrap(); *a = 1; let b = t.get_mut(0).unwrap(); *b = 2; }"),
+            "element_downcast_mut_twice": ("let mut e = v.at_mut(0); let a = e.downcast_mut::<u64>().unwrap(); let b = e.downcast_mut::<u64>().unwrap(); *a = 1; *b = 2; }",
+                                           "let mut e = v.at_mut(0); let a = e.downcast_mut::<u64>().unwrap(); *a = 1; let b = e.downcast_mut::<u64>().unwrap(); *b = 2; }"),
+            "element_downcast_ref_then_mut": ("let mut e = v.at_mut(0); let a = e.downcast_ref::<u64>().unwrap(); let b = e.downcast_mut::<u64>().unwrap(); *b = 2; let _ = *a; }",
+                                              "let mut e = v.at_mut(0); let a = e.downcast_ref::<u64>().unwrap(); let _ = *a; let b = e.downcast_mut::<u64>().unwrap(); *b = 2; }"),
+            "iter_mut_clone": ("let mut i1 = v.iter_mut(); let mut i2 = i1.clone(); let mut a = i1.next().unwrap(); let mut b = i2.next().unwrap(); *a.downcast_mut::<u64>().unwrap() = 1; *b.downcast_mut::<u64>().unwrap() = 2; }",
+                               "let mut i1 = v.iter_mut(); let mut a = i1.next().unwrap(); *a.downcast_mut::<u64>().unwrap() = 1; }"),
+            "lazy_clone_outlives_handle": ("let l; { let e = v.at(0); l = e.lazy_clone(); } let _ = l.size(); }",
+                                           "let e = v.at(0); let l = e.lazy_clone(); let _ = l.size(); }"),
+            "lazy_clone_survives_consumption": ("let h = v.pop().unwrap(); let l = h.lazy_clone(); let _x = h.downcast::<u64>(); let _ = l.size(); }",
+                                                "let h = v.pop().unwrap(); let l = h.lazy_clone(); let _ = l.size(); let _x = h.downcast::<u64>(); }"),
+        }[p]
+        return B_PRELUDE + head + T[0] + "\n", B_PRELUDE + head + T[1] + "\n"
+    if k == "outlives":
+        p = c["method"]
+        head = "pub fn f() { let mut v = mk(); "
+        T = {
+            "drain_item_outlives_temp_iterator": ("let e = v.drain(0..1).next().unwrap(); let _ = e.downcast::<u64>(); }",
+                                                  "let mut d = v.drain(0..1); let e = d.next().unwrap(); let _ = e.downcast::<u64>(); drop(d); }"),
+            "splice_item_outlives_temp_iterator": ("let e = v.splice(0..1, [AnyValueWrapper::new(9u64)]).next().unwrap(); let _ = e.downcast::<u64>(); }",
+                                                   "let mut d = v.splice(0..1, [AnyValueWrapper::new(9u64)]); let e = d.next().unwrap(); let _ = e.downcast::<u64>(); drop(d); }"),
+            "drain_item_after_drop_iterator": ("let mut d = v.drain(0..1); let e = d.next().unwrap(); drop(d); let _ = e.downcast::<u64>(); }",
+                                               "let mut d = v.drain(0..1); let e = d.next().unwrap(); let _ = e.downcast::<u64>(); drop(d); }"),
+        }[p]
+        return B_PRELUDE + head + T[0] + "\n", B_PRELUDE + head + T[1] + "\n"
+    raise ToolError("bad borrow case " + json.dumps(c))
+
+BORROW_CODES = {"E0499", "E0502", "E0505", "E0506", "E0597", "E0382", "E0716", "E0521", "E0515", "E0503", "E0599", "E0713"}
+BORROW_CFG = "INIT Init\nNEXT Next\nINVARIANT EmitInv RuleSanity\nCHECK_DEADLOCK FALSE\n"
+
+def run_c16(tier, seed):
+    t0 = time.time()
+    cases, stats = tlc_cases("AnyVecBorrow", BORROW_CFG, "borrow")
+    rlib, deps = build_rlib(True)
+    if rlib is None:
+        return None, deps
+    os.makedirs(PW, exist_ok=True)
+    def one(ic):
+        i, c = ic
+        prog, ctl = borrow_programs(c)
+        sp, sc = os.path.join(PW, "b%d.rs" % i), os.path.join(PW, "b%dc.rs" % i)
+        open(sp, "w").write(prog); open(sc, "w").write(ctl)
+        return i, rustc(sp, sp + ".rmeta", rlib, deps), rustc(sc, sc + ".rmeta", rlib, deps)
+    with ThreadPoolExecutor(max_workers=14) as ex:
+        out = list(ex.map(one, enumerate(cases)))
+    found = []
+    for i, (ok, codes, msg), (cok, ccodes, cmsg) in out:
+        c = cases[i]
+        prog, ctl = borrow_programs(c)
+        sig = {"pred": "conflict_rejected", "kind": c["kind"], "method": c["method"], "stmt": c["stmt"], "loan": c["loan"], "op": c["kind"], "config": "heap", "profile": "n/a"}
+        if not cok:
+            found.append((dict(sig, pred="control_accepted"), c, "the conflict-free control program is rejected: %s %s" % (ccodes, cmsg[:200]), ctl, False))
+            continue
+        if c["expect"] == "reject":
+            if ok:
+                found.append((sig, c, "a program that %s compiles" % describe_borrow(c), prog, True))
+            elif not (set(codes) & BORROW_CODES):
+                raise ToolError("borrow probe rejected for an unexpected reason %s: %s\n%s" % (codes, msg, prog))
+        else:
+            if not ok:
+                found.append((dict(sig, pred="legal_use_accepted"), c, "a legal program is rejected: %s %s" % (codes, msg[:200]), prog, False))
+    cov = {"states": stats["distinct"], "transitions": max(stats["states"], 1), "traces_validated_against_impl": 2 * len(cases),
+           "evaluations": 2 * len(cases), "distinct_nontrivial": len({(c["kind"], c["method"], c["stmt"]) for c in cases}),
+           "samples": [{"case": cases[0], "program": borrow_programs(cases[0])[0][len(B_PRELUDE):]}, {"case": cases[-1], "program": borrow_programs(cases[-1])[0][len(B_PRELUDE):]}],
+           "exhaustive": True, "programs": 2 * len(cases), "wall_probe_s": round(time.time() - t0, 1)}
+    return (found, cov), None
+
+def describe_borrow(c):
+    if c["kind"] == "vec_loan":
+        return "performs `%s` while the handle from `%s` (%s loan) is alive" % (c["stmt"], c["method"], c["loan"])
+    if c["kind"] == "view_reuse":
+        return "reuses a borrow obtained by `%s` through a mutable typed view after `%s` through the same view" % (c["method"], c["stmt"])
+    return "does `%s`" % c["method"]
